@@ -411,6 +411,7 @@ func (mp *MultihashPrimary) Close() error {
 	if mp.gc != nil {
 		mp.gc.close()
 	}
+	mp.closed = true
 	mp.gcMutex.Unlock()
 
 	mp.fileCache.Clear()
